@@ -14,7 +14,7 @@ def _nontrivial(t):
 def run(tier):
     rnd = random.Random(common.seed() + 1)
     n = 90 if tier == 'quick' else 2500
-    jobs = ec.catalogue_jobs(policies=('random', 'starve_ptq') if tier == 'quick' else ('random', 'starve_jobs', 'results_first', 'starve_ptq', 'lifo'))
+    jobs = ec.catalogue_jobs(seeds=(1, 2) if tier == 'quick' else (1, 2, 3, 4, 5, 6))
     jobs += ec.random_jobs(rnd, n, label='dag')
     jobs += ec.reverse_jobs(rnd, 20 if tier == 'quick' else 300)
     return ec.run_property(PID, tier, jobs,
